@@ -27,6 +27,11 @@ Clauses ==
      selected_in_outer  |-> ~Rec.asserted => (Set1(Rec.frozen) \cup Set1(Rec.free)) \subseteq ou,
      (* the rows the harness used for the numeric residuals are the specification's sets (harness vs spec, not a verdict) *)
      harness_sets     |-> Set1(Rec.capt_rows) = fr /\ Set1(Rec.outer_rows) = ou,
+     (* class of the projections at this k-point: full rank, a zero column, two equal columns, a column supported only on bands
+        outside the outer window (amn_rows = its support); the gauge clauses below hold for all of them *)
+     amn_class        |-> /\ Rec.amn \in {"full", "zero", "dup", "outside"}
+                          /\ (Rec.amn = "dup" => Rec.nw >= 2)
+                          /\ (Rec.amn = "outside" => (Len(Rec.amn_rows) > 0 /\ Set1(Rec.amn_rows) \cap ou = {})),
      (* informational (the implementation's present choice, not demanded by the statement): exact masks, multiplets, call order *)
      frozen_equals_spec |-> ~Rec.asserted => Set1(Rec.frozen) = fr,
      free_equals_spec |-> ~Rec.asserted => Set1(Rec.free) = Free(E, Rec.flo, Rec.fhi, ex, Rec.olo, Rec.ohi),
